@@ -80,7 +80,9 @@ main() {
 uptodate () {
     (set -e
      DIR=$CURRENT
-     [ -d $NEXT ] && DIR=$NEXT
+     # Use $NEXT only if it was left by a failed compile,
+     # not if it was left by an aborted run.
+     [ -d $NEXT ] && [ -f $POLICYDB/failed ] && DIR=$NEXT
      [ -f "$DIR/src/.git/refs/heads/master" ] || return 1
      cd $DIR/src
      rev1=$(git rev-parse HEAD)
@@ -94,6 +96,7 @@ prepare_next() {
     cd $POLICYDB
 
     # Cleanup leftovers from previous unsuccessful build of this policy.
+    rm -f $POLICYDB/failed
     rm -rf $NEXT
 
     # Create temporary directory for new policy.
